@@ -102,7 +102,15 @@ pub fn outline(c: &mut Chooser, task: &ExternalTask) -> Vec<Entry> {
         match c.next(4) {
             0 => {
                 let name = format!("d{i}");
-                let body = condition(c, &known, gv("X"));
+                let mut body = condition(c, &known, gv("X"));
+                // one definition in three is relative to an integer placeholder of the user guide (`.. and X <= n`)
+                if c.data.len() > 80 && c.aux(43 + i as u64, 3) == 0 {
+                    if let Some((n, _)) = task.names.placeholders.iter().find(|p| p.1 == fol::Sort::Integer) {
+                        let ph = fol::GeneralTerm::SymbolicTerm(fol::SymbolicTerm::Symbol(n.clone()));
+                        let bound = if c.aux(44 + i as u64, 2) == 0 { cmp(gv("X"), fol::Relation::LessEqual, ph) } else { cmp(ph, fol::Relation::Greater, gv("X")) };
+                        body = g::bin(fol::BinaryConnective::Conjunction, body, bound);
+                    }
+                }
                 let f = g::quant(true, vec![v("X", fol::Sort::General)], g::bin(fol::BinaryConnective::Equivalence, atom(&name, vec![gv("X")]), body));
                 entries.push(Entry {
                     formula: gt::annotated(fol::Role::Definition, direction(c), &format!("def{i}"), f),
@@ -124,6 +132,21 @@ pub fn outline(c: &mut Chooser, task: &ExternalTask) -> Vec<Entry> {
                     2 => g::bin(fol::BinaryConnective::ReverseImplication, atom(&q0, vec![iv("N")]), atom(&p, vec![iv("N")])),
                     _ => g::bin(fol::BinaryConnective::Implication, atom(&p, vec![iv("N")]), cmp(iv("N"), fol::Relation::GreaterEqual, num(lower))),
                 };
+                // one lemma in four speaks about everything up to the induction variable, which then occurs
+                // only at the far end of a chained comparison: `forall K (n <= K <= N -> p(K))`, or
+                // `forall K (n <= K < K + 1 <= N + 1 -> ..)`, whose step has a new instance to cover
+                if c.data.len() > 80 && c.aux(38 + i as u64, 4) == 0 {
+                    let chain = match c.aux(39 + i as u64, 3) {
+                        0 => g::cmp(num(lower), vec![(fol::Relation::LessEqual, iv("K")), (fol::Relation::LessEqual, iv("N"))]),
+                        1 => g::cmp(iv("N"), vec![(fol::Relation::GreaterEqual, iv("K")), (fol::Relation::GreaterEqual, num(lower))]),
+                        _ => g::cmp(
+                            num(lower),
+                            vec![(fol::Relation::LessEqual, iv("K")), (fol::Relation::Less, num(100)), (fol::Relation::NotEqual, iv("N"))],
+                        ),
+                    };
+                    let then = if c.aux(40 + i as u64, 2) == 0 { atom(&p, vec![iv("K")]) } else { g::bin(fol::BinaryConnective::Disjunction, atom(&p, vec![iv("K")]), atom(&q0, vec![iv("N")])) };
+                    f = g::quant(true, vec![v("K", fol::Sort::Integer)], g::bin(fol::BinaryConnective::Implication, chain, then));
+                }
                 if c.flag(2, 3) {
                     // a part that re-binds the induction variable (or binds another one): the
                     // substitution of the base case and of the step must leave it alone
@@ -328,7 +351,8 @@ impl Check for C13 {
     fn strategy(&self, _tier: Tier) -> BoxedStrategy<Case> {
         (
             gt::choices(180),
-            gt::choices(80),
+            // (longer than the 80 of the recorded replays: shapes added later are switched on by the length)
+            gt::choices(84),
             prop_oneof![2 => Just(0u8), 1 => 1u8..12],
             gt::choices(40),
         )
@@ -336,7 +360,7 @@ impl Check for C13 {
             .boxed()
     }
     fn rule(&self) -> String {
-        "valid external task + generated outline (1-4 entries: definitions, lemmas with free or quantified variables, inductive lemmas with the induction variable occurring several times and re-bound inside, every direction annotation) x flags; oracle (a) sequencing: every axiom of every problem is an axiom of the same direction of the task without outline, an accepted definition of that direction, an earlier conclusion of the final family, or the consequence of a lemma all of whose establishing problems were emitted earlier; a lemma's consequence equals its conjecture; (b) induction: whenever the emitted base/step obligations are true in a random interpretation, the checker's own base F[N:=n] and step (N>=n & F -> F[N:=N+1]) are true; (c) an outline with one definition carrying exactly one listed defect is refused with nothing emitted; non-trivial = an outline with a lemma followed by another entry, an inductive lemma, or a defect; distinct by task + outline".into()
+        "valid external task + generated outline (1-4 entries: definitions (one in three relative to an integer placeholder), lemmas with free or quantified variables, inductive lemmas with the induction variable occurring several times, re-bound inside, or only at the far end of a chained comparison `n <= K <= N`, every direction annotation) x flags; oracle (a) sequencing: every axiom of every problem is an axiom of the same direction of the task without outline, an accepted definition of that direction, an earlier conclusion of the final family, or the consequence of a lemma all of whose establishing problems were emitted earlier; a lemma's consequence equals its conjecture; (b) induction: whenever the emitted base/step obligations are true in a random interpretation, the checker's own base F[N:=n] and step (N>=n & F -> F[N:=N+1]) are true; (c) an outline with one definition carrying exactly one listed defect is refused with nothing emitted; non-trivial = an outline with a lemma followed by another entry, an inductive lemma, or a defect; distinct by task + outline".into()
     }
     fn run(&self, case: &Case) -> Outcome {
         let mut c = Chooser::new(case.task.clone());
